@@ -120,7 +120,7 @@ def classify(program: Program, call: ast.Call, target: str, func: Func) -> Tuple
             n = q.split(".")[-1]
             if n in ("parse", "iterparse"):
                 return "READ", q
-            if n in ("tostring", "XMLSchema", "fromstring", "Element", "SubElement", "XMLParser", "QName", "XML", "tounicode"):
+            if n in ("tostring", "XMLSchema", "fromstring", "Element", "SubElement", "XMLParser", "QName", "XML", "tounicode", "indent", "strip_tags", "cleanup_namespaces"):
                 return "PURE", q
             return "UNCLASSIFIED", q
         if q in ("pathlib.Path",) or q.startswith("pathlib.Path."):
